@@ -3,7 +3,14 @@ from .. import fam_pipeline as fp
 from .. import oracles as orc
 
 THEOREMS = ["C15.compat_same_class", "C15.compat_params", "C15.shared_write_idempotent",
-            "C15.sharing_pairwise", "C15.sharing_single", "C15.sharing_unread", "C15.single_consumers_agree", "C15.single_consumers_params"]
+            "C15.sharing_pairwise", "C15.sharing_single", "C15.sharing_unread", "C15.single_consumers_agree", "C15.single_consumers_params",
+            # C15c: graph stage, request stage and END TO END (quantizePure under NF): every original constant buffer is untouched with
+            # all referents untouched, or holds the packed data of ONE parameter and every referent is typed by it
+            "C15.performer_buffer_weak", "C15.performer_buffer_agrees", "C15.performer_sharers_equal", "C15.unreadOwn_sound",
+            "C15.sharersAgree_of_check", "C15.constData_of_generate", "C15.quantize_shared_consistent", "C15.quantizeSharedConsistent",
+            "C15.quantize_shared_insts", "C15.quantize_sharers_equal", "C15.Tied.all_needed", "C15.Tied.same_needed",
+            "C15.Tied.constData_needed", "C15.E2E.consistent_instance", "C15.Defect.refused_now", "C15.Defect.pinned",
+            "C15.Defect.accepted_instance"]
 
 
 def exported_constants(ctx, case, res, fail):
@@ -28,7 +35,15 @@ def exported_constants(ctx, case, res, fail):
 
 def run(ctx):
     ctx.rule = ("generated models with tied constants (one buffer referenced by several tensors within a subgraph and across subgraphs, one constant tensor with 2..3 consumers, shared constant feeding fc and elementwise ops) x recipes assigning equal, different or no quantization to the sharers (shipped, per-op regex rules, float casting, no_quantize); every buffer of the output is decoded against every tensor referencing it; rejections are allowed; the pipeline is compared with the Lean model; distinct = distinct (model, recipe) pairs")
-    common.proof_side(ctx, THEOREMS, modules=["QProps.C15", "QProps.C15b"])
+    ctx.explanation = ("END TO END on the model (C15.quantize_shared_consistent): for every model in normal form, recipe state, regex semantics and "
+                       "statistics, quantizePure raises or returns a model in which every original constant buffer is either untouched with all "
+                       "its referents untouched, or holds the packed data of ONE parameter object and every tensor referencing it is an original "
+                       "referent typed by that parameter (quantized exactly once; a float tensor never sits over integer bytes or vice versa). "
+                       "Derived from the soundness of both passes of the sharing check (sharing_pairwise/_single/_unread, unreadOwn_sound) through "
+                       "instruction generation (sharersAgree_of_check) and the performer (performer_buffer_agrees; each hypothesis shown necessary "
+                       "by a closed witness). The statement was FALSE before repair D35 (Defect.pinned, replayed on the real code). Not covered by "
+                       "the theorem: the numeric values consumers observe (C05/C06/C07), parameters of float16 casts beyond the dtype.")
+    common.proof_side(ctx, THEOREMS, modules=["QProps.C15", "QProps.C15b", "QProps.C15c"])
     drv = common.Driver()
 
     def per_case(case, res):
